@@ -4,7 +4,8 @@
 // Drives the real utils.MemoryCache, remedies.CachingPlugin and
 // remedies.ResponseBasedThrottlingPlugin with a deterministic clock.Clock
 // (clock.go): the harness decides what Now() returns, when each sleeper
-// goroutine started by Set wakes up, and can stop a Set between its clock
+// goroutine started by Set wakes up (if the Set started one: that is observed,
+// not assumed), and can stop a Set between its clock
 // reading and its locked section to execute a chosen interleaving of
 // concurrent Sets on real goroutines.
 package main
@@ -33,6 +34,9 @@ func main() {
 		"on real goroutines, plus random ones of up to 4; caching / throttle: OnRequest/OnResponse histories of the " +
 		"two plugins over 2 methods x 3 URLs x path-parameter valuations (near-miss keys), relative and absolute " +
 		"retry-after, missing/malformed headers, irrelevant statuses, the same clock aiming. " +
+		"all three levels: time-to-live zero and negative (cache: 0, -1 ns, one grid step, 1 s, 1 h, down to an expiry instant of exactly 0 " +
+		"and below; caching: ttl_seconds 0 / negative; throttle: absolute epoch equal to now, 1 ns, 1 s, 1 h in the past, epoch 0 and 1, relative <= 0), " +
+		"each probed at +0, +1 ns, +1 s, +1 h, followed by a second store of the same key (sleeper of the dead entry fired never/before/after). " +
 		"distinct = distinct (configuration, history, observed results); non-trivial = contains a replay and a " +
 		"probe at an expiry boundary, a size refusal or a stale sleeper firing")
 	runtime.Gosched()
@@ -66,6 +70,7 @@ func main() {
 		default:
 			panic("replay file without a known suite: " + r.Suite)
 		}
+		reportSync(o)
 		o.Finish()
 		return
 	}
@@ -75,17 +80,27 @@ func main() {
 
 	genRestoreScenarios(o, t0)
 	genFireOrders(o, t0)
+	genNonPositiveTTL(o, t0)
 	for i := 0; i < o.Scale(500, 12000, 8000); i++ {
 		genCacheHistory(o, rc, t0)
 	}
 	genSchedules(o, rs, t0)
+	genCachingNonPositiveTTL(o, t0)
 	for i := 0; i < o.Scale(500, 10000, 6000); i++ {
 		genCachingHistory(o, rp, t0)
 	}
+	genThrottleNonPositiveTTL(o, t0)
 	for i := 0; i < o.Scale(600, 12000, 8000); i++ {
 		genThrottleHistory(o, rt, t0)
 	}
+	reportSync(o)
 	o.Finish()
+}
+
+func reportSync(o *c.Out) {
+	for k, v := range syncStats {
+		o.CountN(k, v)
+	}
 }
 
 func must(err error) {
